@@ -263,6 +263,7 @@ class SimSocket(object):
         k.yield_()
         conn = self.conn
         if self.closed:
+            net.log.append(("send-after-close", conn.id if conn else None, len(data)))
             raise OSError(errno.EBADF, "Bad file descriptor")
         if conn is None or conn.state != "up":
             net.log.append(("send-not-connected", conn.id if conn else None, len(data)))
